@@ -64,8 +64,20 @@ def run_case(rng, tier, case):
                     i_s, i_e, _k2 = gen.gen_window(rng, g_, kinds=['none', 'inside', 'straddle_start', 'straddle_end', 'start_only', 'end_only'])
                     x['start'] = i_s; x['end'] = i_e
         case.feature('structured_with_windows')
+    g_ = spec['grid']
+    if not any(a.get('periodicity') for a in spec['assets']) and g_['freq'] in gen.PERIOD_OF and gen.equal_steps(g_) and len(gen.grid_points(g_)) >= 8 and rng.random() < 0.3:
+        # a periodic contract (its twin with another duration is added below)
+        opts_ = [(p_, d_) for (p_, d_) in gen.PERIOD_OF[g_['freq']] if len([1 for (p2, d2) in gen.PERIOD_OF[g_['freq']] if p2 == p_]) >= 2]
+        if opts_:
+            p_, d_ = opts_[int(rng.integers(len(opts_)))]
+            nd_ = sorted({n for a in spec['assets'] if a['type'] != 'StructuredAsset' for n in (a.get('nodes') or [])})[0]
+            pc = gen.strip_private(gen.gen_contract(rng, g_, 'pe_first', nd_, gen.UNIT_F[g_['unit']], sorted(spec['prices'])[0], window=False, take=False, dict_caps=False))
+            pc['periodicity'] = p_; pc['wacc'] = 0.
+            if d_:
+                pc['periodicity_duration'] = d_
+            spec['assets'].append(pc)
     pers = [a for a in spec['assets'] if a.get('periodicity') and a['type'] in ('SimpleContract', 'Contract')]
-    if pers and rng.random() < 0.5:
+    if pers and rng.random() < 0.7:
         # a second periodic asset with the SAME period but another duration interval (its own table of periods and durations)
         tw = copy.deepcopy(pers[0]); tw['name'] = 'pe_twin'
         durs = [d_ for (p_, d_) in gen.PERIOD_OF.get(spec['grid']['freq'], []) if p_ == tw['periodicity'] and d_ != tw.get('periodicity_duration')]
